@@ -15,6 +15,7 @@ rep = Report("C02", "fragment conditions of depth <= 3: atoms and negated atoms 
              "conditions over the same variable set; 4 worlds; selections of all query variables; multiset comparison; the()", a.out)
 A2 = G.atoms(("x", "y"))
 AI = G.int_atoms()
+AP = G.partial_order_atoms()      # values that are only partially ordered (sets): not (a <= b) is not (a > b)
 
 
 def lits(atoms):
@@ -30,6 +31,13 @@ def same_vars(e1, e2):
 def conditions():
     L = list(lits(A2)) + list(lits(AI))
     yield from L
+    for p in lits(AP):
+        yield p
+        yield ("and", p, A2[0])
+        yield ("and", A2[5], p)
+    for p, q in itertools.product(AP, repeat=2):
+        if p is not q:
+            yield ("or", ("not", p), q)
     pairs = [(p, q) for p, q in itertools.product(L, repeat=2) if p is not q]
     for p, q in pairs:
         yield ("and", p, q)
@@ -55,6 +63,8 @@ def work(job):
     wi, cond, share = job
     domains = G.worlds()[wi]
     sel = tuple(("var", v) for v in sorted(G.free_vars(cond)))
+    if share == "project":        # only the first variable is selected: still one result per satisfying assignment of ALL variables
+        sel, share = sel[:1], False
     env = G.Env(domains, share_attrs=share)
     st, got = guarded(lambda: G.run_query(env, sel, cond))
     want = G.oracle_rows(sel, cond, domains)
@@ -69,11 +79,17 @@ def work(job):
 
 
 jobs = [(wi, c, share) for wi in range(4) for c in conditions() for share in ((False, True) if c[0] in ("and", "or") else (False,))]
+jobs += [(wi, c, "project") for wi in range(4) for c in conditions() if len(G.free_vars(c)) > 1]
 import zlib
-jobs = [j for j in jobs if a.tier == "thorough" or zlib.crc32(repr(j).encode()) % 3 == (a.seed % 3)]
+def always(c):
+    """single literals and every condition with a predicate call are never sampled away"""
+    return c[0] not in ("and", "or") or "'pred'" in repr(c)
+
+
+jobs = [j for j in jobs if a.tier == "thorough" or always(j[1]) or zlib.crc32(repr(j).encode()) % 3 == (a.seed % 3)]
 with multiprocessing.get_context("fork").Pool(16) as pool:
     for wi, cond, sel, share, st, got, want, the_outcome in pool.imap_unordered(work, jobs, chunksize=32):
-        shape = G.shape_signature(cond) + ("#shared-attribute-nodes" if share else "")
+        shape = G.shape_signature(cond) + ("#shared-attribute-nodes" if share else "") + ("#one-variable-selected" if len(sel) < len(G.free_vars(cond)) else "")
         rep.case((wi, repr(cond), share), nontrivial=bool(want), sample={"world": wi, "condition": repr(cond)})
         inp = {"world": wi, "condition": cond, "selected": sel, "shared_attribute_nodes": share}
         if st == "exc":
